@@ -70,6 +70,42 @@ pub fn pdu_kinds() -> Vec<Msg> {
 
 const PREFIX: [usize; 5] = [0, 2, 3, 4, 6];
 
+/// well-formed share PDUs (not yet wrapped in a send-data indication) for the "frame-pairs" block
+fn inner_pdus() -> Vec<(&'static str, Vec<u8>)> {
+    let play_sound = {
+        let mut w = vref::bytes::W::new();
+        w.u32le(440).u32le(100);
+        share::share_data(SID, 1002, share::PDUTYPE2_PLAY_SOUND, &w.0)
+    };
+    vec![
+        ("demand-active", share::demand_active(SID, 1002, b"RDP\0", &share::minimal_caps(), 0)),
+        ("demand-active(other share)", share::demand_active(fsm::SHARE_B, 1002, b"RDP\0", &share::minimal_caps(), 0)),
+        ("deactivate-all", share::deactivate_all(SID, 1002)),
+        ("synchronize", share::synchronize(SID, 1002, 1007)),
+        ("control-cooperate", share::control(SID, 1002, share::CTRLACTION_COOPERATE, 0, 0)),
+        ("control-granted", share::control(SID, 1002, share::CTRLACTION_GRANTED_CONTROL, 1007, 0x03EA)),
+        ("font-map", share::font_map(SID, 1002)),
+        ("set-error-info", share::set_error_info(SID, 1002, 0)),
+        ("set-error-info(other share)", share::set_error_info(fsm::SHARE_B, 1002, 0)),
+        ("play-sound", play_sound),
+    ]
+}
+
+/// what the server sends after the hostile frame: the rest of an honest activation from the state the case started
+/// in, then output and data PDUs — a fault that was tolerated must not blow up later
+fn aftermath(l: &mut fsm::Live, state: u8) {
+    let mut tail: Vec<Vec<u8>> = PREFIX.iter().skip(state as usize).map(|ev| fsm::event_frame(*ev, SID)).collect();
+    tail.push(fsm::event_frame(10, SID));
+    tail.push(sdi(&share::set_error_info(SID, 1002, 0)));
+    tail.push(fsm::event_frame(11, SID));
+    for f in tail {
+        l.sh.borrow_mut().push_to_client(&f);
+        let _ = l.client.read(|_| {});
+        l.sh.borrow_mut().to_client.clear();
+        let _ = l.client.try_write(rdp::core::event::RdpEvent::Pointer(rdp::core::event::PointerEvent { x: 1, y: 1, button: rdp::core::event::PointerButton::None, down: false }));
+    }
+}
+
 impl C06 {
     fn locate(&self, idx: u64) -> (&'static str, u64) {
         let mut i = idx;
@@ -152,6 +188,14 @@ impl C06 {
                 let c2 = apply_dev(&mut bytes, &d2.kind);
                 (state, bytes, json!({"block": b, "state": state, "deviations": [d1, d2]}), c1 && c2)
             }
+            "frame-pairs" => {
+                let pd = inner_pdus();
+                let n = pd.len() as u64;
+                let state = (i / (n * n)) as u8;
+                let r = i % (n * n);
+                let (a, c) = (&pd[(r / n) as usize], &pd[(r % n) as usize]);
+                (state, sdi(&[a.1.clone(), c.1.clone()].concat()), json!({"block": b, "state": state, "two_share_pdus_in_one_frame": [a.0, c.0]}), true)
+            }
             "inner-slow" => {
                 let (state, s) = self.block_case(b, i);
                 (state, sdi(&s), json!({"block": b, "state": state, "share_control_level_bytes": vref::bytes::hex(&s)}), true)
@@ -191,7 +235,7 @@ impl Prop for C06 {
             }
         }
         let fs = FaultSpace::new(pdu_kinds(), tier);
-        let mut blocks = vec![("single", 6 * fs.total()), ("inner-slow", self.block_count("inner-slow")), ("inner-mcs", self.block_count("inner-mcs")), ("inner-fast", self.block_count("inner-fast")), ("inner-frame", self.block_count("inner-frame"))];
+        let mut blocks = vec![("single", 6 * fs.total()), ("inner-slow", self.block_count("inner-slow")), ("inner-mcs", self.block_count("inner-mcs")), ("inner-fast", self.block_count("inner-fast")), ("inner-frame", self.block_count("inner-frame")), ("frame-pairs", 6 * (inner_pdus().len() * inner_pdus().len()) as u64)];
         if tier == Tier::Thorough {
             let r = fs.reduced_count();
             blocks.push(("pairs", 2 * r * r));
@@ -210,7 +254,7 @@ impl Prop for C06 {
         d
     }
     fn rule(&self) -> String {
-        "cases = (client state 0..5 reached by the honest activation prefix, one server frame with <=1 deviation (<=2 thorough)). PDU kinds: demand-active (Windows capability list and minimal), deactivate-all, synchronize, control, font-map, set-error-info, an unparsed data PDU, two share PDUs in one frame, a confirm-active sent by the server, fast-path bitmap (raw + compressed-with-header rectangles), fast-path pointer/synchronize updates, unknown fast-path codes. Deviations: every byte offset x value set (12 boundary values + honest+-1; all 256 in thorough), every offset as 16/32-bit field in both byte orders x boundary set, every truncation, extensions {+1,+2,+1500}; [inner-*] every byte string of length <=2 (<=3 in thorough for the Data state, and state 0 at the share-control entry) and every string of length 3..4 (..6 in thorough) over 8 boundary bytes at the MCS, share-control (states 0,1,5 in quick, all six in thorough) and fast-path parser entries, and as raw unframed bytes at the frame reader; [pairs, thorough] all pairs of {byte:=00, byte:=FF, truncate} over all offsets, in states 0 and 5. After the hostile frame an honest PDU is read to expose desynchronisation loops. Non-trivial: the frame differs from the honest one.".into()
+        "cases = (client state 0..5 reached by the honest activation prefix, one server frame with <=1 deviation (<=2 thorough)). PDU kinds: demand-active (Windows capability list and minimal), deactivate-all, synchronize, control, font-map, set-error-info, an unparsed data PDU, two share PDUs in one frame, a confirm-active sent by the server, fast-path bitmap (raw + compressed-with-header rectangles), fast-path pointer/synchronize updates, unknown fast-path codes. Deviations: every byte offset x value set (12 boundary values + honest+-1; all 256 in thorough), every offset as 16/32-bit field in both byte orders x boundary set, every truncation, extensions {+1,+2,+1500}; [inner-*] every byte string of length <=2 (<=3 in thorough for the Data state, and state 0 at the share-control entry) and every string of length 3..4 (..6 in thorough) over 8 boundary bytes at the MCS, share-control (states 0,1,5 in quick, all six in thorough) and fast-path parser entries, and as raw unframed bytes at the frame reader; [pairs, thorough] all pairs of {byte:=00, byte:=FF, truncate} over all offsets, in states 0 and 5. [frame-pairs] every ordered pair of 10 well-formed share PDUs in one frame, in each of the six states. After the hostile frame an honest PDU is read to expose desynchronisation loops, then, when the hostile frame was tolerated (read returned Ok), the server plays the rest of an honest activation from that state followed by fast-path output and a data PDU, with an input attempt after every step: a tolerated fault must not blow up later. Non-trivial: the frame differs from the honest one.".into()
     }
     fn assumptions(&self) -> Vec<String> {
         vec!["memory rule: single request > 1 MiB or peak > 16 MiB + 1024 x bytes received".into(), "the six states are reached through RdpClient::read on the raw stack (hooks H3/H4); TLS record handling is not part of this property".into()]
@@ -243,6 +287,10 @@ impl Prop for C06 {
         let honest = sdi(&share::set_error_info(SID, 1002, 0));
         l.sh.borrow_mut().push_to_client(&honest);
         let _ = l.client.read(|_| {});
+        if r1.is_ok() {
+            // (after an error the application drops the connection: nothing follows)
+            aftermath(&mut l, state);
+        }
         let res = match r1 {
             Ok(()) => "ok".to_string(),
             Err(e) => err_class(&format!("{:?}", e)),
